@@ -90,6 +90,19 @@ def OBJ(cls, **fields):
 EMPTYLIST = ('list', None)      # the display `[]` before its element type is known
 
 
+def obj_param_name(obj, field):
+    """name of the parameter of the translation that stands for `field` of the object parameter `obj`"""
+    return 'n_' + obj if field == '__len__' else obj + '_items' if field == '__iter__' else field
+
+
+def obj_param_type(fty):
+    """round 5: the field `__iter__=LIST(OBJ(...))` (what iterating over the object yields) is a list of tuples of the
+    fields of the item objects"""
+    if isinstance(fty, tuple) and fty[0] == 'list' and isinstance(fty[1], tuple) and fty[1][0] == 'obj':
+        return LIST(TUPLE(*[t for _, t in fty[1][1]]))
+    return fty
+
+
 class NamedTupleType(tuple):
     """a tuple type whose components have names (collections.namedtuple): `x.name` is a projection"""
     fields = ()
@@ -832,6 +845,14 @@ class FnTranslator:
             if e.id in vars(self.module) and not callable(vars(self.module)[e.id]) and e.id not in self.module_aliases:
                 return self.const_val(e.id, vars(self.module)[e.id])
             raise Untranslatable(f'name {e.id}')
+        if self.spec.get('part', 1) >= 5 and isinstance(e, (ast.Attribute, ast.Subscript)) and isinstance(e.value, ast.Name):
+            o = self.lookup(e.value.id, env, ctx)
+            if o is not None and o.fields is None and o.view is None and isinstance(o.ty, tuple) and o.ty[0] == 'opt' \
+                    and isinstance(o.ty[1], NamedTupleType):
+                # `x.name` / `x[…]` for x: Optional[named tuple]: None has no attributes (AttributeError) and no items (TypeError)
+                exc = 'attributeError' if isinstance(e, ast.Attribute) else 'typeError'
+                u = self.bind(ctx, f'(match {o.term} with | some x => {ok("x")} | none => {err(exc)})', o.ty[1])
+                return self.ex(e, {**env, e.value.id: u}, ctx)
         if isinstance(e, ast.Attribute):
             if isinstance(e.value, ast.Name) and e.value.id in self.module_aliases and e.value.id not in env:
                 mod = self.module_aliases[e.value.id]
@@ -1358,6 +1379,20 @@ class FnTranslator:
                 if flds is not None and len(flds) == len(vs):          # round 6: the components keep their names (`segment.bits`)
                     ty = NT(**dict(zip(flds, ty[1:])))
                 return Val('(' + ', '.join(v.term for v in vs) + ')', ty, elts=vs)
+            cls = vars(self.module).get(nm)
+            if self.spec.get('part', 1) >= 5 and isinstance(cls, type) and issubclass(cls, tuple) and hasattr(cls, '_fields') \
+                    and not e.keywords and len(e.args) == len(cls._fields) and all(isinstance(a, ast.Name) or True for a in e.args):
+                # a collections.namedtuple of the module (`Code(matrix, version, error, mask, segments)`): the tuple of its
+                # components; a component that is an OBJECT parameter handed through unchanged is left out (it is the caller's object)
+                vs = []
+                for a in e.args:
+                    o = self.lookup(a.id, env, ctx) if isinstance(a, ast.Name) else None
+                    if o is not None and o.fields is not None:
+                        if a.id not in self.spec['params']:
+                            raise Untranslatable(f'{nm}(…): the object {a.id} is not a parameter')
+                        continue
+                    vs.append(self.ex(a, env, ctx))
+                return Val('(' + ', '.join(v.term for v in vs) + ')', TUPLE(*[v.ty for v in vs]), elts=vs)
             import functools
             import operator
             if nm == 'product' and vars(self.module).get(nm) is itertools.product:
@@ -1445,10 +1480,26 @@ class FnTranslator:
             given[kw.arg] = kw.value
         # Python evaluates the arguments in the order they are written
         vals = {}
+        objs = {}
         for p in list(given):
+            pty = dict(ent['params'])[p]
+            if self.spec.get('part', 1) >= 5 and isinstance(pty, tuple) and pty[0] == 'obj' and isinstance(given[p], ast.Name):
+                # an object (parameter of this function / item of a loop over one) handed on to a translated callee: its fields
+                o = self.lookup(given[p].id, env, ctx)
+                if o is None or o.fields is None or o.ty[2] != pty[2]:
+                    raise Untranslatable(f'argument {p} of {ent["name"]}: an object of class {pty[2]} is expected')
+                for fnm, fty in pty[1]:
+                    if fnm not in o.fields or o.fields[fnm].ty != obj_param_type(fty):
+                        raise Untranslatable(f'argument {p} of {ent["name"]}: the object {given[p].id} is declared without {fnm}: {fty}')
+                objs[p] = o
+                fields = {**o.fields, **(fields or {})}
+                continue
             vals[p] = self.ex(given[p], env, ctx)
         args = []
         for p, ty in ent['params']:
+            if p in objs:
+                args += [objs[p].fields[fnm].term for fnm, _ in ty[1]]
+                continue
             if p in vals:
                 v = vals[p]
             elif p in ent['defaults']:
@@ -1461,6 +1512,9 @@ class FnTranslator:
                 continue
             if isinstance(ty, tuple) and ty[0] == 'obj':
                 raise Untranslatable(f'{ent["name"]} takes an object parameter and cannot be called from translated code')
+            if self.spec.get('part', 1) >= 5 and isinstance(v.ty, tuple) and v.ty[0] == 'opt' and v.ty[1] == ty:
+                # None where the callee is translated for a value: TypeError AT THE CALL (see docs/TRANSLATOR.md, round 5)
+                v = self.bind(ctx, f'(match {v.term} with | some x => {ok("x")} | none => {err("typeError")})', ty)
             args.append(self.coerce(v, ty).term)
         # closure variables are read from the caller's scope at call time; the opaque reads of a method from the
         # fields of the object it is called on
@@ -1470,7 +1524,21 @@ class FnTranslator:
             if v is None or v.view is not None or v.bound is not None or v.fields is not None:
                 raise Untranslatable(f'closure variable {p} of {ent["name"]} is not available at the call')
             pre.append(self.coerce(v, ty).term)
+        feeds = self.spec.get('feeds', {}).get(ent['name'], {})
         for p, ty in ent.get('opaque', []):
+            if p in feeds and (fields is None or p not in fields):
+                # round 5: the opaque read of the callee is an expression over the callee's parameters that this function can
+                # evaluate itself (a call of a translated function): evaluated with the actual arguments, BEFORE the call
+                if ent.get('opaque_src', {}).get(p) != feeds[p]:
+                    raise Untranslatable(f'fed read {feeds[p]}: {ent["name"]} reads {ent.get("opaque_src", {}).get(p)} for {p}')
+                sub = ast.parse(feeds[p], mode='eval').body
+                for n in ast.walk(sub):
+                    if isinstance(n, ast.Name) and n.id in given:
+                        if not isinstance(given[n.id], ast.Name):
+                            raise Untranslatable(f'fed read {feeds[p]}: the argument {n.id} is not a plain name')
+                        n.id = given[n.id].id
+                post.append(self.coerce(self.ex(sub, env, ctx), ty).term)
+                continue
             if fields is None or p not in fields:
                 raise Untranslatable(f'{ent["name"]} has the opaque parameter {p}, which is not available at the call')
             post.append(self.coerce(fields[p], ty).term)
@@ -2689,8 +2757,17 @@ class FnTranslator:
             raise Untranslatable('for … else')
         it = s.iter
         own_break = any(isinstance(n, (ast.Break, ast.Continue)) for n in ast.walk(ast.Module(body=s.body, type_ignores=[])))
+        obj_items = None
+        if self.spec.get('part', 1) >= 5 and isinstance(it, ast.Name):
+            o = self.lookup(it.id, env, Ctx())
+            if o is not None and o.fields is not None:
+                if '__iter__' not in o.fields:
+                    raise Untranslatable(f'iteration over the object {it.id}, which is declared without __iter__')
+                if not isinstance(s.target, ast.Name):
+                    raise Untranslatable('loop target over the items of an object')
+                obj_items = (o.fields['__iter__'], dict(o.ty[1])['__iter__'][1])
         # (1) loop over a module-level constant (tuple / dict.items() / .values() / .keys()): unrolled
-        if not (isinstance(it, ast.Call) and isinstance(it.func, ast.Name) and it.func.id == 'range') and not own_break:
+        if obj_items is None and not (isinstance(it, ast.Call) and isinstance(it.func, ast.Name) and it.func.id == 'range') and not own_break:
             items = None
             saved = (dict(self.counter), self.size)
             try:
@@ -2729,7 +2806,7 @@ class FnTranslator:
             self.counter, self.size = dict(saved[0]), saved[1]
         # (2) the general form: a fold (with early exit) over the locals the body rebinds
         ctx = Ctx()
-        xs = self.seq_arg(it, env, ctx)
+        xs = obj_items[0] if obj_items is not None else self.seq_arg(it, env, ctx)
         if ctx.updates:
             raise Untranslatable('an in-place update in the iterable of a loop')
         root = self.root_name(it.func.value if isinstance(it, ast.Call) and isinstance(it.func, ast.Attribute) else
@@ -2746,6 +2823,11 @@ class FnTranslator:
         pat, env_t = self.bind_target(s.target, elem_ty(xs.ty), {}, byte=xs.byte)
         if isinstance(s.target, ast.Name):
             pat = f'({env_t[s.target.id].term} : {lean_ty(elem_ty(xs.ty))})'
+        if obj_items is not None:
+            # the loop variable is an OBJECT: its fields are the components of the current item
+            item, oty = env_t[s.target.id], obj_items[1]
+            nf = len(oty[1])
+            env_t = {s.target.id: Val(None, oty, fields={f: Val(proj(item.term, k, nf), fty) for k, (f, fty) in enumerate(oty[1])})}
         if self.spec.get('part', 1) >= 3 and not self.loops:
             # a local that is FIRST assigned inside this (outermost) loop and read after it: unbound until an iteration
             # assigns it.  It joins the loop state as an Option (`none` = unbound); every read goes through `Py.unbound`
@@ -2838,7 +2920,8 @@ class FnTranslator:
             elif isinstance(ty, tuple) and ty[0] == 'obj':
                 fields = {}
                 for fnm, fty in ty[1]:
-                    pname = 'n_' + nm if fnm == '__len__' else fnm
+                    pname = obj_param_name(nm, fnm)
+                    fty = obj_param_type(fty)
                     params.append((pname, fty))
                     fields[fnm] = Val(lean_name(pname), fty)
                 env[nm] = Val(None, ty, fields=fields)
@@ -3003,8 +3086,9 @@ class Translation:
             for nm, ty in spec['params'].items():
                 if isinstance(ty, tuple) and ty[0] == 'obj':
                     for fnm, fty in ty[1]:
-                        pname = 'n_' + nm if fnm == '__len__' else fnm
-                        what = f'len({nm})' if fnm == '__len__' else f'{nm}.{fnm}' if hasattr_class(self.modules[mod], ty[2], fnm) \
+                        pname = obj_param_name(nm, fnm)
+                        what = f'len({nm})' if fnm == '__len__' else f'the items of {nm} in iteration order, each as the tuple of ' \
+                            + ', '.join(f for f, _ in fty[1][1]) if fnm == '__iter__' else f'{nm}.{fnm}' if hasattr_class(self.modules[mod], ty[2], fnm) \
                             else f'what the translated methods of {nm} read as their parameter {fnm}'
                         doc.append(f'parameter `{pname}` stands for {what}')
             if spec.get('self_state'):
@@ -3022,6 +3106,7 @@ class Translation:
             self.registry[name] = dict(name=name, lean=lean, params=list(spec['params'].items()), ret=tr.ret_ty, py_ret=spec['ret'],
                                        monadic=monadic, defaults=literal_defaults(fn), pyobj=pyobj,
                                        closure=list(spec.get('closure', {}).items()), opaque=list(spec.get('opaque', {}).values()),
+                                       opaque_src={nm: src for src, (nm, _) in spec.get('opaque', {}).items()},
                                        mutates=list(spec.get('mutates', [])), method=bool(spec.get('method')),
                                        ret_byte=bool(getattr(tr, 'ret_byte', False)) and not spec.get('legacy'),
                                        nested_in=(mod, tuple(spec['path'][:-1])) if len(spec['path']) > 1 and not spec.get('method') else None)
@@ -3060,7 +3145,7 @@ class Translation:
         all_params = []
         for nm, ty in list(spec.get('closure', {}).items()) + list(spec['params'].items()):
             if isinstance(ty, tuple) and ty[0] == 'obj':
-                all_params += [('n_' + nm if fnm == '__len__' else fnm, fty) for fnm, fty in ty[1]]
+                all_params += [(obj_param_name(nm, fnm), obj_param_type(fty)) for fnm, fty in ty[1]]
             else:
                 all_params.append((nm, ty))
         all_params += [(nm, ty) for nm, ty in spec.get('opaque', {}).values()]
@@ -3128,11 +3213,12 @@ class Translation:
         if part == 6:
             return self.part_text(6, 'Gen.Funcs4', 'Gen.Funcs6', 'Gen.Py Gen.Funcs Gen.Funcs2 Gen.Funcs3', False)
         imp, ns = ('Gen.Py', 'Gen.Funcs') if part == 1 else ('Gen.Py2\nimport Gen.Funcs', 'Gen.Funcs2') if part == 2 else \
-            ('Gen.Funcs2', 'Gen.Funcs3') if part == 3 else ('Gen.Funcs3', 'Gen.Funcs4')
+            ('Gen.Funcs2', 'Gen.Funcs3') if part == 3 else ('Gen.Funcs3', 'Gen.Funcs4') if part == 4 else ('Gen.Funcs4', 'Gen.Funcs5')
         out = ['-- GENERATED by tools/gen.py (tools/pytolean.py: AST translation of the repository working tree). DO NOT EDIT.',
                f'import {imp}', '', 'set_option linter.unusedVariables false', '', f'namespace {ns}',
                'open Gen.Py' + (' Gen.Funcs' if part == 2 else ' Gen.Funcs Gen.Funcs2' if part == 3 else
-                            ' Gen.Funcs Gen.Funcs2 Gen.Funcs3' if part == 4 else ''), '']
+                            ' Gen.Funcs Gen.Funcs2 Gen.Funcs3' if part == 4 else
+                            ' Gen.Funcs Gen.Funcs2 Gen.Funcs3 Gen.Funcs4' if part == 5 else ''), '']
         for nm in self.tables.order:
             if self.part_of_table.get(nm, 1) == part:
                 out += [self.tables.defs[nm][1], '']
@@ -3150,7 +3236,8 @@ class Translation:
         imp, ns, op = ('Gen.Funcs', 'Gen.FuncsCheck', 'Gen.Py Gen.Funcs') if part == 1 else \
             ('Gen.Funcs2', 'Gen.Funcs2Check', 'Gen.Py Gen.Funcs Gen.Funcs2') if part == 2 else \
             ('Gen.Funcs3', 'Gen.Funcs3Check', 'Gen.Py Gen.Funcs Gen.Funcs2 Gen.Funcs3') if part == 3 else \
-            ('Gen.Funcs4', 'Gen.Funcs4Check', 'Gen.Py Gen.Funcs Gen.Funcs2 Gen.Funcs3 Gen.Funcs4')
+            ('Gen.Funcs4', 'Gen.Funcs4Check', 'Gen.Py Gen.Funcs Gen.Funcs2 Gen.Funcs3 Gen.Funcs4') if part == 4 else \
+            ('Gen.Funcs5', 'Gen.Funcs5Check', 'Gen.Py Gen.Funcs Gen.Funcs2 Gen.Funcs3 Gen.Funcs4 Gen.Funcs5')
         head = ['-- GENERATED by tools/gen.py (tools/pytolean.py). DO NOT EDIT.',
                 '-- Translation validation: what the real Python functions returned at generation time on sample arguments,',
                 '-- compared by the Lean kernel with what the translated functions compute.']
@@ -3405,6 +3492,7 @@ def segno_specs(mods, trees):
     specs += segno_specs2(mods, trees, versions, levels)
     specs += segno_specs3(mods, trees, versions, levels)
     specs += segno_specs4(mods, trees, versions, levels)
+    specs += segno_specs5(mods, trees, versions, levels)
     specs += segno_specs6(mods, trees, versions, levels)
     for s in specs:
         s['name'] = s['path'][-1]
@@ -3741,6 +3829,68 @@ def segno_specs4(mods, trees, versions, levels):
     return specs
 
 
+def segno_specs5(mods, trees, versions, levels):
+    """round 5 (Gen/Funcs5.lean): the composition `_encode` — every step is a call of a translation of rounds 1 – 4; the object
+    `segments` is handed on to `boost_error_level` and iterated over (its items go to `write_segment`); the opaque read
+    `make_matrix(width, height)` of `find_and_apply_best_mask` is fed with the round-4 translation of `make_matrix`."""
+    import types
+    enc, consts = mods['encoder'], mods['consts']
+    MAT = LIST(BYTEARRAY)
+    SEG = OBJ('_Segment', mode=INT, encoding=OPT(STR), char_count=INT, bits=BUFFER, eci_number=RAISES(INT))
+    SEGS = OBJ('Segments', __len__=INT, no_eci_indicators=INT, modes=LIST(INT), bit_length=INT, __iter__=LIST(SEG))
+    SA = NT(mode=INT, number=INT, total=INT, parity=INT)
+
+    def real_segments(content, mode=None, encoding=None):
+        segs = enc.prepare_data(content, mode, encoding)
+        items = [(s.mode, s.encoding, s.char_count, list(s.bits), 26) for s in segs]
+        return (len(segs), 0, list(segs.modes), segs.bit_length, items)
+
+    class FakeSegments:
+        bit_length_with_overhead = enc.Segments.bit_length_with_overhead
+
+        def __init__(self, a):
+            self.modes, self.bit_length, self.n = a['modes'], a['bit_length'], a['n_segments']
+            self.segments = [types.SimpleNamespace(mode=consts.MODE_BYTE, encoding='x-other')] * a['no_eci_indicators']
+            self.items = [enc._Segment(tuple(bits), cc, md, en) for (md, en, cc, bits, _) in a['segments_items']]
+
+        def __len__(self):
+            return self.n
+
+        def __iter__(self):
+            return iter(self.items)
+
+    def encode_call(a):
+        sa = None if a['sa_info'] is None else enc._StructuredAppendInfo(*a['sa_info'][1:])
+        c = enc._encode(FakeSegments(a), a['error'], a['version'], a['mask'], a['eci'], a['boost_error'], sa)
+        return ([bytearray(r) for r in c.matrix], c.version, c.error, c.mask)
+
+    def case(content, error, version, mask, boost, sa=None, mode=None):
+        return real_segments(content, mode) + (error, version, mask, False, boost, sa)
+    L, M, Q, H = consts.ERROR_LEVEL_L, consts.ERROR_LEVEL_M, consts.ERROR_LEVEL_Q, consts.ERROR_LEVEL_H
+    specs = [
+        dict(module='encoder', path=['_encode'],
+             params={'segments': SEGS, 'error': OPT(INT), 'version': INT, 'mask': OPT(INT), 'eci': BOOL, 'boost_error': BOOL,
+                     'sa_info': OPT(SA)},
+             ret=TUPLE(MAT, INT, OPT(INT), INT),
+             feeds={'find_and_apply_best_mask': {'function_matrix0': 'make_matrix(width, height)'}},
+             cases=[case('123', None, consts.VERSION_M1, None, False),            # M1, the mask is searched
+                    case('12345', L, consts.VERSION_M2, None, True),             # M2, boosted to M, mask searched
+                    case('segno', Q, consts.VERSION_M4, 3, False),
+                    case('HELLO WORLD', M, 1, 5, True),                          # version 1, boosted, requested mask
+                    case('123', L, 1, 7, False, (3, 1, 2, 55)),                  # version 1 with a Structured Append header
+                    case('https://example.org/', L, 2, 4, True),                 # version 2 (alignment pattern)
+                    case('123456789', L, consts.VERSION_M1, 0, False),           # M1 has no level L: KeyError
+                    ],
+             # (no sample of the mask search over a QR Code: eight `mask_scores` of a 21 x 21 matrix cost the kernel ≈ 50 s; that path
+             # is covered by `find_and_apply_best_mask_tie`)
+             nsamples=0, group=1, pycall=encode_call),
+    ]
+    for s in specs:
+        s['part'] = 5
+        s.setdefault('decide', 'decide +kernel')
+    return specs
+
+
 def segno_specs6(mods, trees, versions, levels):
     """round 6 (Gen/Funcs6.lean): `Segments.add_segment` — a method that UPDATES `self` (`self.segments`, `self.bit_length`,
     `self.modes`): translated as the function from these three values and the segment to their final values (`self_state`)."""
@@ -3856,7 +4006,9 @@ def generate(repo, leandir, write_if_changed, modules):
     for k in range(CHECK_SHARDS3):
         changed.append(write_if_changed(os.path.join(leandir, 'Gen', f'Funcs3Check{k + 1}.lean'), tr.check_text(3, k, CHECK_SHARDS3)))
     changed += [write_if_changed(os.path.join(leandir, 'Gen', 'Funcs4.lean'), tr.funcs_text(4)),
-                write_if_changed(os.path.join(leandir, 'Gen', 'Funcs4Check.lean'), tr.check_text(4))]
+                write_if_changed(os.path.join(leandir, 'Gen', 'Funcs4Check.lean'), tr.check_text(4)),
+                write_if_changed(os.path.join(leandir, 'Gen', 'Funcs5.lean'), tr.funcs_text(5)),
+                write_if_changed(os.path.join(leandir, 'Gen', 'Funcs5Check.lean'), tr.check_text(5))]
     changed += [write_if_changed(os.path.join(leandir, 'Gen', 'Funcs6.lean'), tr.funcs_text(6)),
                 write_if_changed(os.path.join(leandir, 'Gen', 'Funcs6Check.lean'), tr.check_text(6))]
     return changed, tr.report
